@@ -59,4 +59,42 @@ theorem C15_fn_is_done (s : Monitor.State) (hh : s.height < Rs.U32_MAX) :
     · simp [State.isDone, Gen.Chain.minDepth, h1, h2]
   · simp [State.isDone, Gen.Chain.minDepth, h1]
 
+/-! ### The monitor handles the node uses: `ChainMonitorBase::{forget_channel, forget_seen, is_done}`, `ChainMonitor::is_done`
+
+`get_state()` (= `self.state.lock().expect("lock")`) is inlined by a declared normalisation so that the write through
+the guard reaches `self`; the lock is the identity on the protected value. -/
+
+/-- **`ChainMonitorBase::forget_channel`** sets the forget flag of the monitor state and nothing else
+    (`Prune.setForget`) -/
+theorem C15_fn_forget_channel (s : Monitor.State) :
+    Gen.FnMonitor.ChainMonitorBase.forget_channel ⟨toGen s⟩ = ⟨toGen { s with sawForget := true }⟩ := rfl
+
+theorem C15_fn_forget_seen (s : Monitor.State) :
+    Gen.FnMonitor.ChainMonitorBase.forget_seen ⟨toGen s⟩ = s.sawForget := rfl
+
+/-- **`ChainMonitorBase::is_done`** (what `Node::prune_channels` asks through `chan.monitor`) = `State.isDone` -/
+theorem C15_fn_base_is_done (s : Monitor.State) (hh : s.height < Rs.U32_MAX) :
+    Gen.FnMonitor.ChainMonitorBase.is_done ⟨toGen s⟩ = .ok (s.isDone Gen.Chain.minDepth) := by
+  unfold Gen.FnMonitor.ChainMonitorBase.is_done
+  simp only [C15_fn_is_done s hh, Rs.bind_ok, Rs.pure_eq]
+
+theorem C15_fn_monitor_is_done (s : Monitor.State) (hh : s.height < Rs.U32_MAX) :
+    Gen.FnMonitor.ChainMonitor.is_done ⟨toGen s⟩ = .ok (s.isDone Gen.Chain.minDepth) := by
+  unfold Gen.FnMonitor.ChainMonitor.is_done
+  simp only [C15_fn_is_done s hh, Rs.bind_ok, Rs.pure_eq]
+
+/-- stated on the generated code: a monitor whose `forget_channel` was never called is not done, whatever the chain
+    did — "only after the node has asked to forget it" -/
+theorem C15_fn_not_done_before_forget (s : Monitor.State) (hh : s.height < Rs.U32_MAX) (hf : s.sawForget = false) :
+    Gen.FnMonitor.ChainMonitorBase.is_done ⟨toGen s⟩ = .ok false := by
+  rw [C15_fn_base_is_done s hh]
+  simp [State.isDone, State.deepEnough, hf]
+
+/-- stated on the generated code: after `forget_channel` the answer is the burial condition alone -/
+theorem C15_fn_done_after_forget (s : Monitor.State) (hh : s.height < Rs.U32_MAX) :
+    (Gen.FnMonitor.ChainMonitorBase.forget_channel ⟨toGen s⟩).is_done
+      = .ok ({ s with sawForget := true }.isDone Gen.Chain.minDepth) := by
+  rw [C15_fn_forget_channel]
+  exact C15_fn_base_is_done _ hh
+
 end VlsModel.Props.C15Fn
